@@ -336,6 +336,46 @@ def outgoing(n, periodic, modifiable=True):
     sx.reach("outgoing")
 
 
+def odd_callbacks():
+    """callbacks are arbitrary callables: an object that is 'falsy' (a recorder derived from list that has recorded
+    nothing yet, a counter at zero) is subscribed, notified and unsubscribed like any other; None alone means 'all'"""
+    net = sx.mod("canopen.network").Network()
+
+    class Recorder(list):
+        def __call__(self, can_id, data, ts):
+            self.append((can_id, ts))
+
+    class Counter:
+        n = 0
+
+        def __call__(self, can_id, data, ts):
+            self.n += 1
+
+        def __bool__(self):
+            return self.n > 0
+
+        def __eq__(self, o):
+            return self is o
+
+        __hash__ = object.__hash__
+    cid = sx.fresh_int("id", 0, 0x7FF)
+    rec, cnt, plain = Recorder(), Counter(), []
+    net.subscribe(cid, rec)
+    net.subscribe(cid, cnt)
+    net.subscribe(cid, lambda c, d, t: plain.append(t))
+    tag = "C10/odd-callbacks"
+    which = sx.choice(2, "which")
+    net.unsubscribe(cid, rec if which == 0 else cnt)          # removed while still 'falsy'
+    net.notify(cid, b"\x01", 5.0)
+    sx.prove(len(plain) == 1, "removing one (falsy) callback removed the others on that id", tag + "/others-removed")
+    sx.prove((len(rec) == 0 and cnt.n == 1) if which == 0 else (len(rec) == 1 and cnt.n == 0),
+             "exactly the named callback was removed", tag + "/removed")
+    net.unsubscribe(cid)                                       # no callback given: all of them
+    net.notify(cid, b"\x02", 6.0)
+    sx.prove(len(plain) == 1, "unsubscribe without a callback removes every callback of the id", tag + "/all")
+    sx.reach("odd-callbacks")
+
+
 def concurrent_send(k, tag="C10/concurrent-send"):
     """Network.send_message is documented as safe to call from several threads: k threads send one frame each
     (every schedule at lock granularity); the bus sees every frame exactly once, with its own id, data and flag."""
@@ -454,6 +494,7 @@ def jobs(tier):
                 out.append(dict(func="outgoing", params=dict(n=n, periodic=periodic, modifiable=False)))
     for k in (2, 3):
         out.append(dict(func="concurrent_send", params=dict(k=k), weight=3 ** k))
+    out.append(dict(func="odd_callbacks", params={}))
     out.append(dict(func="listener", params={}))
     for k in (1, 2, 3):
         out.append(dict(func="scanner", params=dict(k=k), weight=10 ** k))
@@ -480,7 +521,7 @@ META = dict(
     assumptions=[],
     stubs=["can (recording model)", "dict displays -> SymDict", "threading.Lock", "queue", "logging"],
     required_reach=["step", "op-subscribe", "op-unsubscribe", "op-unsubscribe-missing", "op-notify", "history",
-                    "node-delete", "node-remote", "node-local", "node-extra-channel", "node-same", "outgoing", "outgoing-update", "concurrent-send", "listener", "scanner"],
+                    "node-delete", "node-remote", "node-local", "node-extra-channel", "node-same", "outgoing", "outgoing-update", "concurrent-send", "odd-callbacks", "listener", "scanner"],
     limits=dict(quick=dict(max_decisions=20000), thorough=dict(max_decisions=20000, job_timeout_s=3000)),
     validate_every=dict(quick=11, thorough=101),
     max_validate=dict(quick=60, thorough=60),
